@@ -4,6 +4,7 @@ import (
 	"bytes"
 	"fmt"
 	"io"
+	"math/rand"
 	"os"
 	"path/filepath"
 	"regexp"
@@ -210,6 +211,43 @@ func loadLayout(headPath string) ([]lfile, error) {
 		out = append(out, lfile{headPath, b})
 	}
 	return out, nil
+}
+
+// shiftIndices renames the rotated files wal.NNN of a stopped log so that their (contiguous) indices straddle a
+// power of ten: what the directory of a long-running validator looks like after the oldest files were pruned.
+// Returns the highest index in use afterwards (0 if there was nothing to rename).
+func shiftIndices(headPath string, r *rand.Rand) (int, error) {
+	dir := filepath.Dir(headPath)
+	ents, err := os.ReadDir(dir)
+	if err != nil {
+		return 0, err
+	}
+	var idx []int
+	for _, e := range ents {
+		if m := idxRe.FindStringSubmatch(e.Name()); m != nil {
+			i, _ := strconv.Atoi(m[1])
+			idx = append(idx, i)
+		}
+	}
+	if len(idx) == 0 {
+		return 0, nil
+	}
+	sort.Ints(idx)
+	base := []int{10, 100, 1000, 10000, 100000}[r.Intn(5)]
+	// the file that had index idx[k] gets base-1-below+k with 0 <= below < len: at least one index on each side when len > 1
+	below := r.Intn(len(idx))
+	off := base - 1 - below - idx[0]
+	if off <= 0 {
+		return idx[len(idx)-1], nil
+	}
+	for k := len(idx) - 1; k >= 0; k-- {
+		from := fmt.Sprintf("%s.%03d", headPath, idx[k])
+		to := fmt.Sprintf("%s.%03d", headPath, idx[k]+off)
+		if err := os.Rename(from, to); err != nil {
+			return 0, err
+		}
+	}
+	return idx[len(idx)-1] + off, nil
 }
 
 func concat(files []lfile, replace int, with []byte) []byte {
